@@ -91,7 +91,7 @@ pub fn gen(seed: u64, thorough: bool, only: Option<u64>, out: &mut Out) {
     }
     let mut r = Prng::for_case(seed, "C06", g);
     let t: u32 = if thorough {
-      *r.pick(&[1, 2, 3, 4, 5, 7, 8, 16, 33, 40, 64, 100, 255, 600])
+      *r.pick(&[1, 2, 3, 4, 5, 7, 8, 16, 33, 40, 64, 100, 255, 300])
     } else {
       *r.pick(&[1, 2, 3, 4, 5, 7, 8, 12, 16, 40])
     };
@@ -125,7 +125,7 @@ pub fn gen(seed: u64, thorough: bool, only: Option<u64>, out: &mut Out) {
       ws.extend([1u64, 0, 0]);
     }
     let n_iter = (t as usize).max(1) + r.below(3) as usize;
-    let n_iter = n_iter.min(if thorough { 610 } else if t >= 256 { 260 } else { 48 });
+    let n_iter = n_iter.min(if thorough { 310 } else if t >= 256 { 260 } else { 48 });
     let mut rng = ScriptRng::new(ws.clone());
     let sharks = Sharks(t);
     let dealt = guarded(|| match sharks.dealer_rng(&secret, &mut rng) {
